@@ -1,8 +1,9 @@
 (* Lazy/LazyDelta.v — MODEL of LazyDeltaVec<I,S,T,Op> (variants/lazy/delta/{mod,readable,any_vec,sub,change}.rs)
    for Op = DeltaSub (integers, checked_sub().unwrap_or_default()) and Op = DeltaChange over u32 (the
    difference of two u32 is exact in f64 and is carried as an integer).
-   `ovf` = integer overflow checks are compiled in (debug profile): `h - start` in Op::count panics
-   when start > h; without them it wraps and the value is unused by both ops. *)
+   `ovf` = integer overflow checks are compiled in (debug profile): DeltaChange keeps the default
+   Op::count = `h - start`, which panics when start > h (without checks it wraps; the value is unused);
+   DeltaSub::count = `(h + 1).saturating_sub(start)` never panics. *)
 From Anydb Require Import Common.Base Lazy.LazyBase.
 
 Inductive dop := DSub | DChg.
@@ -15,8 +16,10 @@ Definition ago_index (op : dop) (start : N) : option N :=
   end.
 (* sub.rs:19 T::default(); op.rs:16 unreachable!() *)
 Definition ago_default (op : dop) : ev Z := match op with DSub => EV 0%Z | DChg => EP end.
-(* sub.rs:24 `h - start + 1`, op.rs:25 `h - start`: evaluated for every element although unused *)
-Definition count_panics (ovf : bool) (h start : N) : bool := ovf && (h <? start).
+(* sub.rs:24 `(h + 1).saturating_sub(start)` (h < len: h + 1 cannot overflow), op.rs:25 `h - start`:
+   evaluated for every element although unused *)
+Definition count_panics (ovf : bool) (op : dop) (h start : N) : bool :=
+  match op with DSub => false | DChg => ovf && (h <? start) end.
 (* sub.rs:29 / change.rs:12 *)
 Definition combine (t : ety) (op : dop) (current ago : Z) : Z :=
   match op with
@@ -31,8 +34,8 @@ Section Delta.
   Variable src : list Z.
   Variable starts : list N.            (* (self.window_starts)() *)
 
-  (* delta/any_vec.rs:25: the source's length, whatever the mapping's *)
-  Definition d_len : N := len src.
+  (* delta/any_vec.rs:25: source.len().min((self.window_starts)().len()) *)
+  Definition d_len : N := N.min (len src) (len starts).
 
   (* delta/mod.rs:66 bulk_try_fold: one element of the loop `for i in from..to` *)
   Definition d_elem (read_from : N) (data : list Z) (i : N) : ev Z :=
@@ -52,7 +55,7 @@ Section Delta.
               end in
             match ago with
             | EP => EP
-            | EV a => if count_panics ovf i start then EP else EV (combine t op current a)
+            | EV a => if count_panics ovf op i start then EP else EV (combine t op current a)
             end
         end
     end.
@@ -92,12 +95,12 @@ Section Delta.
             | Some idx =>
                 match src_one src idx with
                 | None => Ok None
-                | Some ago => if count_panics ovf index start then Panic else Ok (Some (combine t op current ago))
+                | Some ago => if count_panics ovf op index start then Panic else Ok (Some (combine t op current ago))
                 end
             | None =>
                 match ago_default op with
                 | EP => Panic
-                | EV ago => if count_panics ovf index start then Panic else Ok (Some (combine t op current ago))
+                | EV ago => if count_panics ovf op index start then Panic else Ok (Some (combine t op current ago))
                 end
             end
         end
@@ -192,7 +195,7 @@ Section Delta.
                         end in
                       match a with
                       | EP => EP
-                      | EV a => if count_panics ovf h start then EP else EV (combine t op current a)
+                      | EV a => if count_panics ovf op h start then EP else EV (combine t op current a)
                       end
                   end
               end
